@@ -502,8 +502,8 @@ def check_property(prop, units, tier, seed, *, explanation, assumptions, stubs=(
             if inp is None:
                 continue
             key = (label, json.dumps(enc_inputs(inp), sort_keys=True))
-            # every distinct label is replayed (a few inputs each); beyond 60 replays per unit only labels not seen yet
-            if key in done or labels_done.get(label, 0) >= 5 or (_b.len(done) > 60 and label in labels_done):
+            # every distinct label is replayed (up to 24 different inputs each); beyond 150 replays per unit only labels not seen yet
+            if key in done or labels_done.get(label, 0) >= 24 or (_b.len(done) > 150 and label in labels_done):
                 continue
             done.add(key)
             labels_done[label] = labels_done.get(label, 0) + 1
